@@ -531,6 +531,16 @@ func (k Keeper) TriggerEsm(ctx sdk.Context, auctionData types.Auction, liquidati
 
 }
 
+// debtTakenByBid returns the debt amount the just-placed bid was recorded with when that is less than what was
+// offered (PlaceDutchAuctionBid cuts a bid down to what the remaining collateral buys), else the offered amount.
+func (k Keeper) debtTakenByBid(ctx sdk.Context, biddingID uint64, offered sdk.Int) sdk.Int {
+	placed, err := k.GetUserBid(ctx, biddingID)
+	if err == nil && placed.DebtTokenAmount.Amount.LT(offered) {
+		return placed.DebtTokenAmount.Amount
+	}
+	return offered
+}
+
 func (k Keeper) LimitOrderBid(ctx sdk.Context) error {
 	// Get Auctions One by One and for that particular auction check the current discount
 	// if we find any active limit bid for that premium then we will execute it and update both
@@ -557,25 +567,28 @@ func (k Keeper) LimitOrderBid(ctx sdk.Context) error {
 						if err != nil {
 							return err
 						}
-						if individualBids.DebtToken.Amount.Equal(auction.DebtToken.Amount) {
+						// what the fill took from the deposit: the remaining debt, or less when the collateral
+						// did not cover it and the app reserve paid the difference
+						took := k.debtTakenByBid(ctx, biddingId, auction.DebtToken.Amount)
+						if individualBids.DebtToken.Amount.Equal(took) {
 							k.DeleteUserLimitBidData(ctx, auction.DebtAssetId, auction.CollateralAssetId, premiumPerc.TruncateInt(), individualBids.BidderAddress)
 
 							k.UpdateUserLimitBidDataForAddress(ctx, individualBids, false)
 							// the whole deposit was used up: it leaves the recorded total as well
 							protocolData, _ := k.GetLimitBidProtocolDataByAssetID(ctx, auction.DebtAssetId, auction.CollateralAssetId)
-							protocolData.BidValue = protocolData.BidValue.Sub(auction.DebtToken.Amount)
+							protocolData.BidValue = protocolData.BidValue.Sub(took)
 							err = k.SetLimitBidProtocolData(ctx, protocolData)
 							if err != nil {
 								return err
 							}
 							return nil
 						}
-						individualBids.DebtToken.Amount = individualBids.DebtToken.Amount.Sub(auction.DebtToken.Amount)
+						individualBids.DebtToken.Amount = individualBids.DebtToken.Amount.Sub(took)
 						individualBids.BiddingId = append(individualBids.BiddingId, biddingId)
 						k.SetUserLimitBidData(ctx, individualBids, auction.DebtAssetId, auction.CollateralAssetId, premiumPerc.TruncateInt())
-						// subtract auction.DebtToken.Amount from protocol data
+						// subtract what was taken from protocol data
 						protocolData, _ := k.GetLimitBidProtocolDataByAssetID(ctx, auction.DebtAssetId, auction.CollateralAssetId)
-						protocolData.BidValue = protocolData.BidValue.Sub(auction.DebtToken.Amount)
+						protocolData.BidValue = protocolData.BidValue.Sub(took)
 						err = k.SetLimitBidProtocolData(ctx, protocolData)
 						if err != nil {
 							return err
@@ -585,13 +598,15 @@ func (k Keeper) LimitOrderBid(ctx sdk.Context) error {
 						if err != nil {
 							return err
 						}
-						debtAmount := individualBids.DebtToken.Amount
-						individualBids.DebtToken.Amount = sdk.ZeroInt()
+						debtAmount := k.debtTakenByBid(ctx, biddingId, individualBids.DebtToken.Amount)
+						individualBids.DebtToken.Amount = individualBids.DebtToken.Amount.Sub(debtAmount)
 						individualBids.BiddingId = append(individualBids.BiddingId, biddingId)
 						k.SetUserLimitBidData(ctx, individualBids, auction.DebtAssetId, auction.CollateralAssetId, premiumPerc.TruncateInt())
-						// delete limit order bid
-						k.UpdateUserLimitBidDataForAddress(ctx, individualBids, false)
-						k.DeleteUserLimitBidData(ctx, auction.DebtAssetId, auction.CollateralAssetId, individualBids.PremiumDiscount, individualBids.BidderAddress)
+						if individualBids.DebtToken.Amount.IsZero() {
+							// delete limit order bid
+							k.UpdateUserLimitBidDataForAddress(ctx, individualBids, false)
+							k.DeleteUserLimitBidData(ctx, auction.DebtAssetId, auction.CollateralAssetId, individualBids.PremiumDiscount, individualBids.BidderAddress)
+						}
 						// subtract auction.DebtToken.Amount from protocol data
 						protocolData, _ := k.GetLimitBidProtocolDataByAssetID(ctx, auction.DebtAssetId, auction.CollateralAssetId)
 						protocolData.BidValue = protocolData.BidValue.Sub(debtAmount)
